@@ -1026,7 +1026,7 @@ func c01Faults(x *X) {
 	}
 	x.defNat("serviceMonitorFieldWrites", uint64(writes))
 	// the two watch loops as guarded actions
-	if fd := x.funcDecl(dir, "", "watchKV"); fd != nil {
+	if fd := c01KVWatcher(x, dir); fd != nil {
 		_, a := x.c01Guarded(dir, fd, "")
 		x.defStrList("watchKVActions", a)
 	}
@@ -1114,15 +1114,54 @@ func c01WatchBackend(x *X) {
 		}
 	}
 	x.defStrList("watchBackendLoop", keep)
-	// the alias registration: where it is called and what is done with its result (an expression statement is
-	// rendered "call …": the result is discarded; an assignment or an `if err := …` would show up as such)
-	var regs []string
-	for _, s := range w.out {
-		if strings.Contains(s, ".Register(") {
-			regs = append(regs, s)
+	// the alias registration, by meaning: every call of a method named Register inside the loop is an expression
+	// statement (its result is discarded - an assignment, `if err := …` or a condition would not be), and it comes
+	// before the NewTable call in the same statement list; no names of locals, no buffer idiom
+	regCalls, regDiscarded, regBeforeNewTable := 0, 0, true
+	var walkList func(list []ast.Stmt)
+	walkList = func(list []ast.Stmt) {
+		newTableAt := -1
+		for i, st := range list {
+			has := false
+			ast.Inspect(st, func(n ast.Node) bool {
+				if c, ok := n.(*ast.CallExpr); ok && c01Callee(c) == "NewTable" {
+					has = true
+				}
+				return true
+			})
+			if has && newTableAt < 0 {
+				newTableAt = i
+			}
+		}
+		for i, st := range list {
+			if es, ok := st.(*ast.ExprStmt); ok {
+				if c, ok := es.X.(*ast.CallExpr); ok && c01Callee(c) == "Register" {
+					regDiscarded++
+					if newTableAt >= 0 && i > newTableAt {
+						regBeforeNewTable = false
+					}
+				}
+			}
 		}
 	}
-	x.defStrList("watchBackendRegister", regs)
+	ast.Inspect(loop.Body, func(n ast.Node) bool {
+		switch v := n.(type) {
+		case *ast.BlockStmt:
+			walkList(v.List)
+		case *ast.CaseClause:
+			walkList(v.Body)
+		case *ast.CommClause:
+			walkList(v.Body)
+		case *ast.CallExpr:
+			if c01Callee(v) == "Register" {
+				regCalls++
+			}
+		}
+		return true
+	})
+	x.defNat("watchBackendRegisterCalls", uint64(regCalls))
+	x.defNat("watchBackendRegisterDiscarded", uint64(regDiscarded))
+	x.defBool("watchBackendRegisterBeforeNewTable", regBeforeNewTable)
 	// nothing else in the function installs a table
 	n := 0
 	ast.Inspect(fd.Body, func(m ast.Node) bool {
@@ -1162,9 +1201,10 @@ func c01HandOver(x *X) {
 	// the channels the two watchers send on are the ones WatchServices / WatchManual return, and the watcher is
 	// started with that very channel
 	for _, name := range []string{"WatchServices", "WatchManual"} {
-		fd := x.funcDecl("registry/consul", "be", name)
-		if fd == nil {
-			x.fail("be.%s not found", name)
+		// the method of the registry.Backend implementation, whatever its receiver type is called
+		fd := x.anyFuncDecl("registry/consul", name)
+		if fd == nil || fd.Recv == nil {
+			x.fail("method %s of the consul backend not found", name)
 			continue
 		}
 		var made, started, returned string
@@ -1198,4 +1238,27 @@ func c01HandOver(x *X) {
 		})
 		x.defBool("handOver"+name+"SameChannel", made != "" && made == started && made == returned)
 	}
+}
+
+// c01KVWatcher finds the KV watcher by role: the package function that the backend's WatchManual method (an
+// exported method of the registry.Backend interface) starts with `go`, whatever it is called.
+func c01KVWatcher(x *X, dir string) *ast.FuncDecl {
+	wm := x.anyFuncDecl(dir, "WatchManual")
+	if wm == nil {
+		x.fail("method WatchManual of the consul backend not found")
+		return nil
+	}
+	var out *ast.FuncDecl
+	ast.Inspect(wm.Body, func(n ast.Node) bool {
+		if g, ok := n.(*ast.GoStmt); ok && out == nil {
+			if id, ok := g.Call.Fun.(*ast.Ident); ok {
+				out = x.anyFuncDecl(dir, id.Name)
+			}
+		}
+		return true
+	})
+	if out == nil {
+		x.fail("WatchManual starts no package function with go")
+	}
+	return out
 }
